@@ -106,13 +106,6 @@ func VF_Air_Arbitrary() {
 			p = append(p, &responses.DKGProposalPubKeysParticipantEntry{ParticipantId: 1, Username: victim.name, DkgPubKey: vpk, Threshold: vf.Int("c.t")},
 				&responses.DKGProposalPubKeysParticipantEntry{ParticipantId: 0, Username: vfNameChoice("c.name", nodes), DkgPubKey: vfJunk("c.junk"), Threshold: 2})
 		}
-		// an operation file is untrusted input: the list may also hold a null entry (first or last)
-		switch vf.Choose("payload.null", vfNullKinds()) {
-		case 1:
-			p = append(p, nil)
-		case 2:
-			p = append(p[:0:0], append([]*responses.DKGProposalPubKeysParticipantEntry{nil}, p...)...)
-		}
 		op.Payload, _ = json.Marshal(p)
 	case vfStepDeals:
 		op.Type = client.OperationType(vfStepType[step])
@@ -135,13 +128,6 @@ func VF_Air_Arbitrary() {
 			crafted, _ = json.Marshal([][]byte{nil, nil, nil})
 		}
 		p = append(p, &responses.DKGProposalCommitParticipantEntry{ParticipantId: vf.Int("d.pid"), Username: vfNameChoice("d.name", nodes), DkgCommit: crafted})
-		// an operation file is untrusted input: the list may also hold a null entry (first or last)
-		switch vf.Choose("payload.null", vfNullKinds()) {
-		case 1:
-			p = append(p, nil)
-		case 2:
-			p = append(p[:0:0], append([]*responses.DKGProposalCommitParticipantEntry{nil}, p...)...)
-		}
 		op.Payload, _ = json.Marshal(p)
 	case vfStepResponses:
 		op.Type = client.OperationType(vfStepType[step])
@@ -175,13 +161,6 @@ func VF_Air_Arbitrary() {
 			enc, _ = attacker.am.encryptDataForParticipant(round, victim.name, vfJunk("r.plain"))
 		}
 		p = append(p, &responses.DKGProposalDealParticipantEntry{ParticipantId: vf.Int("r.pid"), Username: vfNameChoice("r.name", nodes), DkgDeal: enc})
-		// an operation file is untrusted input: the list may also hold a null entry (first or last)
-		switch vf.Choose("payload.null", vfNullKinds()) {
-		case 1:
-			p = append(p, nil)
-		case 2:
-			p = append(p[:0:0], append([]*responses.DKGProposalDealParticipantEntry{nil}, p...)...)
-		}
 		op.Payload, _ = json.Marshal(p)
 	case vfStepMasterKey:
 		op.Type = client.OperationType(vfStepType[step])
@@ -206,13 +185,6 @@ func VF_Air_Arbitrary() {
 			bz = vfJunk("m.junk")
 		}
 		p = append(p, &responses.DKGProposalResponseParticipantEntry{ParticipantId: vf.Int("m.pid"), Username: vfNameChoice("m.name", nodes), DkgResponse: bz})
-		// an operation file is untrusted input: the list may also hold a null entry (first or last)
-		switch vf.Choose("payload.null", vfNullKinds()) {
-		case 1:
-			p = append(p, nil)
-		case 2:
-			p = append(p[:0:0], append([]*responses.DKGProposalResponseParticipantEntry{nil}, p...)...)
-		}
 		op.Payload, _ = json.Marshal(p)
 	case 4: // signing
 		op.Type = client.OperationType(signing_proposal_fsm.StateSigningAwaitPartialSigns)
@@ -389,12 +361,4 @@ func vfKind(name string, n int) int {
 		return k
 	}
 	return vf.Choose(name, n)
-}
-
-// vfNullKinds: 2 = the payload list as built, or with a null entry appended (quick); 3 = also with a null entry first (thorough)
-func vfNullKinds() int {
-	if vf.Param("nullkinds") == "3" {
-		return 3
-	}
-	return 2
 }
